@@ -42,7 +42,18 @@ func Check_History() {
 	if sx.Tier() > 0 {
 		k = 4
 	}
-	k = sx.Param("k", k)
+	history(sx.Param("k", k), nil)
+}
+
+// Check_HistoryAfterRetry: one level deeper for the histories that exercise
+// the retry budget: they start with a record of one node followed by an
+// expiry scan, then 2 (quick) / 3 (thorough) free events.
+func Check_HistoryAfterRetry() {
+	first := sx.Choose("firstNode", 2)
+	history(4+sx.Tier(), []int{first, 2})
+}
+
+func history(k int, forced []int) {
 	sx.Note("C07: all records of one flow carry the same flow type and rule actions (the statement is per flow)")
 	a := agg.New(false)
 	key := agg.Keys[0]
@@ -72,7 +83,12 @@ func Check_History() {
 		return nil
 	}
 	for step := 0; step < k; step++ {
-		ev := sx.Choose("event", 3)
+		var ev int
+		if step < len(forced) {
+			ev = forced[step]
+		} else {
+			ev = sx.Choose("event", 3)
+		}
 		if ev == 2 {
 			// expiry scan after every deadline has passed
 			a.VerifShiftDeadlines(-(agg.InactiveTimeout + agg.Tick))
@@ -182,5 +198,6 @@ func Check_History() {
 }
 
 var Table = map[string]runner.Entry{
-	"Check_History": {Setup: Setup, Fn: Check_History},
+	"Check_History":           {Setup: Setup, Fn: Check_History},
+	"Check_HistoryAfterRetry": {Setup: Setup, Fn: Check_HistoryAfterRetry},
 }
